@@ -122,7 +122,7 @@ PROPS = {
              "same step and, for pool inputs without fault, with the result computed at process start. Non-trivial: at least two steps. "
              "Distinct: hash of (tasks, executed schedule, fault switch).",
         state_measure="distinct (instance kind, previous input, current input, consumption mode, fault kind) tuples - ordered input pairs covered",
-        fault_kinds=["fail_at", "eof_at", "abandon_after", "op_error", "var_missing", "fn_error", "fn_panic", "fn_error_plain"],
+        fault_kinds=["fail_at", "eof_at", "abandon_after", "op_error", "var_missing", "fn_error", "fn_panic", "fn_error_plain", "fn_both"],
         probes=["pristine_compared"],
         real=["all tokenizers, parsers, ExpressionCalculator, MustacheTemplate (instrumented copy)"],
         stub=["SimScanner (pass-through io.StringScanner that counts calls, ends early or panics at call k)", "SimOps (pass-through operations manager failing at call n)",
@@ -168,7 +168,7 @@ PROPS = {
              "inside the operation). A second batch runs the same generators without faults under the same monitor. Non-trivial: at least one fault "
              "fired inside an operation. Distinct: hash of (task, fault switch).",
         state_measure="distinct (instance kind, consumption mode, fired fault kind, outcome kind) tuples",
-        fault_kinds=["fail_at", "eof_at", "abandon_after", "op_error", "var_missing", "fn_error", "fn_panic", "fn_error_plain", "state_nil", "state_empty"],
+        fault_kinds=["fail_at", "eof_at", "abandon_after", "op_error", "var_missing", "fn_error", "fn_panic", "fn_error_plain", "fn_both", "state_nil", "state_empty"],
         probes=["fault_free_runs"],
         real=["all tokenizers, parsers, ExpressionCalculator, MustacheTemplate, DefaultFunctionCollection (instrumented copy)"],
         stub=["SimScanner", "SimOps", "SimVariables", "Faulty / PlainFaulty functions (pass-through except where a fault is scheduled)"],
